@@ -5,7 +5,7 @@
 ID="$1"; DEST="$2"; PKG="$3"; TEST="$4"; shift 4
 W=/tmp/seed/confirm; OUT=/tmp/seed/$ID-out; LOG=/tmp/seed/confirm-$ID.log
 export CARGO_TARGET_DIR=/tmp/seed/confirm-target
-cd $W && git checkout -q -- . && git clean -fdq
+cd $W && git checkout -q -- . && git clean -fdq && git checkout -q --detach $(git -C /repo rev-parse HEAD)
 : > $LOG
 git apply $OUT/patch.diff 2>/dev/null || git apply --3way $OUT/patch.diff || { echo "PATCH DOES NOT APPLY" | tee -a $LOG; exit 1; }
 mkdir -p "$(dirname $DEST)"; cp $OUT/demo.rs $DEST
